@@ -277,6 +277,9 @@ pub fn run_case(a: &Value, rng: &mut StdRng, pep: bool) -> (Vec<String>, Outcome
 }
 
 fn key_for(a: &Value) -> String {
+    if let Ok(p) = std::env::var("ZV_KEY_PREFIX") {
+        return p;
+    }
     for op in arr(&a["ops"]) {
         if op["kind"] == "bump" && op["idx"].as_i64().unwrap() < 0 {
             return "C05:bump-negative-index".into();
